@@ -71,6 +71,9 @@ class C03(Check):
                 {**base, 'behaviours': {'boom': {'kind': 'raise_exc', 'exc': 'TypeError', 'marker': 'MARKER-tt-zq'}}, 'text': t({'jsonrpc': '2.0', 'id': 1, 'method': 'boom'})},
                 {**base, 'behaviours': {'boom': {'kind': 'raise_exc', 'exc': 'KeyError', 'marker': 'MARKER-kk-zq'}}, 'text': t([{'jsonrpc': '2.0', 'id': 1, 'method': 'boom'}, {'jsonrpc': '2.0', 'method': 'boom'}])},
                 {**base, 'behaviours': {}, 'text': t({'jsonrpc': '2.0', 'id': 1, 'method': 'echo', 'params': {'a': 1, 'zz': 2}})},
+                {**base, 'behaviours': {'rpc_err': {'kind': 'raise_rpc', 'error': {'cls': 'QuotaError', 'code': None, 'message': None, 'data': {'value': {'limit': 3}}}}}, 'text': t([{'jsonrpc': '2.0', 'id': 1, 'method': 'rpc_err'}, {'jsonrpc': '2.0', 'method': 'rpc_err'}])},
+                {**base, 'behaviours': {}, 'text': {**t({'jsonrpc': '2.0', 'id': 1, 'method': 'noargs'}), 'pad': '\x0c'}},
+                {**base, 'behaviours': {}, 'text': {**t([{'jsonrpc': '2.0', 'id': 1, 'method': 'noargs'}]), 'pad': '\u2028'}},
                 {**base, 'behaviours': {'boom': {'kind': 'raise_exc', 'exc': 'ValidationError', 'marker': 'MARKER-vv-zq'}}, 'text': t({'jsonrpc': '2.0', 'id': 1, 'method': 'boom'})},
                 {**base, 'behaviours': {'boom2': {'kind': 'raise_exc', 'exc': 'DeserializationError', 'marker': 'MARKER-dd-zq'}},
                  'text': t([{'jsonrpc': '2.0', 'id': 1, 'method': 'boom2'}, {'jsonrpc': '2.0', 'method': 'boom2'}])},
